@@ -705,6 +705,13 @@ func (sc *SpecCtx) call(e *Expr) Value {
 			}
 		}
 		sc.fail("rangelen() outside a range-over-slice loop")
+	case "rangeslice": // rangeslice(): the slice a range loop iterates over (its header is fixed when the loop starts)
+		if sc.resolver != nil {
+			if v, ok := sc.resolver("$rangeslice"); ok {
+				return v
+			}
+		}
+		sc.fail("rangeslice() outside a range-over-slice loop")
 	case "lastkey_in": // lastkey_in(n): the key most recently produced by map range loop number n
 		if len(e.Args) != 1 || e.Args[0].Op != "int" {
 			sc.fail("lastkey_in(loop ordinal)")
